@@ -182,6 +182,7 @@ func (m *memory) AddTriples(ctx context.Context, ts []*triple.Triple) error {
 			m.idxSO[key] = make(map[string]*triple.Triple)
 		}
 		m.idxSO[key][tuuid] = t
+		verifYield(ctx, "add:after-triple")
 	}
 	return nil
 }
@@ -219,6 +220,7 @@ func (m *memory) RemoveTriples(ctx context.Context, ts []*triple.Triple) error {
 		}
 
 		m.rwmu.Unlock()
+		verifYield(ctx, "remove:after-triple")
 	}
 	return nil
 }
